@@ -180,11 +180,12 @@ def HtmlPath.isIgnore : HtmlPath → Bool
   | .ignore => true
   | _ => false
 
-/-- apply paths innermost-first (all are `.elements` here) -/
+/-- apply paths innermost-first; `ignore.wrap` discards what is inside it (without evaluating it:
+    see `visit`), the paths outside it still wrap the now empty content -/
 def wrapAll : List HtmlPath → List Node → List Node
   | [], ns => ns
   | .elements es :: ps, ns => wrapAll ps (wrapElems es ns)
-  | .ignore :: _, _ => []
+  | .ignore :: ps, _ => wrapAll ps []
 
 def isHeaderRow : Elem → Bool
   | .row h _ => h
@@ -216,7 +217,8 @@ def visit (cfg : Cfg) (hdr : Bool) : Elem → ConvM (List Node)
     let props := runPropPaths cfg r
     let sp ← findPathWarn cfg (.run r.styleId r.styleName) S!"run" r.styleId r.styleName (.elements [])
     let paths := props ++ [sp]
-    if paths.any HtmlPath.isIgnore then pure []
+    -- the children are generated lazily: an `ignore` anywhere in the chain means they never are
+    if paths.any HtmlPath.isIgnore then pure (wrapAll paths [])
     else do
       let ns ← visitAll cfg hdr cs
       pure (wrapAll paths ns)
